@@ -300,6 +300,14 @@ def setup():
     st.store_metadata("dir/metaonly.txt", {"status": "recipe", "title": "never produced"})
 
 
+def _parses(parse, t):
+    try:
+        parse(t)
+        return True
+    except Exception:
+        return False
+
+
 def run_shard(spec):
     import hashlib
     from liquer.parser import parse, QueryException
@@ -439,6 +447,20 @@ def run_shard(spec):
                 names_a_correct_text = any(rep_q == t for (t, o) in cands)
                 if rep_off in typed_offsets and not is_typed_text and names_a_correct_text:
                     m = "offset is that of the outermost as-typed text, named query is a re-encoded prefix or nested link text"
+                    # which re-encoded text is it?
+                    sub = "other_text"
+                    try:
+                        pfx = [q[:i] for i in range(1, len(q) + 1) if i == len(q) or q[i] == "/"]
+                        if any(parse(t).encode() == rep_q for t in pfx if _parses(parse, t)):
+                            sub = "canonical_text_of_a_typed_prefix"
+                        elif ("~X~" + rep_q + "~E") in q or ("~X~" + rep_q + "/") in q:
+                            sub = "nested_link_text"
+                    except Exception:
+                        pass
+                    counters["known_position_mechanism.%s.%s" % (case["kind"], sub)] = counters.get("known_position_mechanism.%s.%s" % (case["kind"], sub), 0) + 1
+                    if sub == "other_text":
+                        # neither the canonical text of a typed prefix nor a nested link's own text: not the listed mechanism
+                        m = "other: a text is named that is neither the as-typed query, nor the canonical text of one of its prefixes, nor a nested link's own text"
                 viol(case, "position", "reported position does not point at the failing action in the named query [%s]" % m,
                      "reported (%r, %r); failing path %r; acceptable %r" % (rep_q, rep_off, fail.path, sorted(cands)[:6]))
         if (case["npre"] > 0 or "link" in case["kind"]):
